@@ -85,6 +85,7 @@ def plan(tier, seed):
     specs.append({"kind": "hostile_json", "count": 1500 if q else 30000})
     for _ in range(2 if q else 6):
         specs.append({"kind": "classes", "count": 500 if q else 5000})
+    specs.append({"kind": "grey_classes", "count": 150 if q else 3000})
     return specs
 
 
@@ -240,7 +241,52 @@ def run_classes(spec, rec, lib):
                               "malformed argument reported as %s" % out.cls, case)
 
 
+def run_grey_classes(spec, rec, lib):
+    """class mapping where the reference schema is silent (integral non-int numerics as version/threshold): the
+    statement still fixes the class once the library's OWN checker accepts both documents, so the precondition is
+    observed at run time instead of modelled"""
+    rng = random.Random(spec["seed"])
+    C, A = lib.common, lib.authentication
+    U = [gkeys.key(i) for i in range(6)]
+    for i in range(spec["count"]):
+        K = rng.sample(U, rng.randint(1, 2))
+        t = 1
+        v = rng.choice([1, 2, 7, 100])
+        flav = lambda x: rng.choice([float(x), float(x), x, True if x == 1 else float(x)])  # noqa: E731
+        v2 = rng.choice([v, v + 2, v - 1 if v > 1 else v + 3, v + 1, v + 1])
+        tv, nv = flav(v), flav(v2)
+        if type(tv) is int and type(nv) is int:
+            tv = float(tv)
+        trusted = rootchain.signed_root(tv, K, t, K, rng)
+        new = rootchain.signed_root(nv, K, t, K, rng)
+        ok_t = boundary.call(lib, C.checkformat_delegating_metadata, copy.deepcopy(trusted)).accepted
+        ok_n = boundary.call(lib, C.checkformat_delegating_metadata, copy.deepcopy(new)).accepted
+        out = boundary.call(lib, A.verify_root, copy.deepcopy(trusted), copy.deepcopy(new))
+        rec.case("greyclass|%r|%r" % (tv, nv))
+        case = {"kind": "rootpair", "trusted": trusted, "new": new, "row": "grey-version"}
+        if not out.accepted and out.family not in boundary.DOCUMENTED:
+            rec.violation(boundary.mechanism("undocumented-error", "authentication.verify_root", "documented-family", out),
+                          "verify_root raised %s on integral non-int versions" % out.cls, case)
+            continue
+        if not (ok_t and ok_n):
+            rec.count("grey_precondition_not_met")
+            continue
+        rec.count("grey_class_mapping_checks")
+        mismatch = (v2 != v + 1)
+        if mismatch and not out.accepted and out.family != "MetadataVerificationError":
+            rec.violation(boundary.mechanism("error-class", "authentication.verify_root", "MetadataVerificationError[grey-version]", out),
+                          "both documents pass the library's own checker, versions %r -> %r do not chain, all signatures valid: "
+                          "reported as %s instead of MetadataVerificationError" % (tv, nv, out.cls), case)
+        if mismatch and out.accepted:
+            rec.violation("unsound-accept/verify_root/grey-version-mismatch", "versions %r -> %r accepted" % (tv, nv), case)
+        if not mismatch and not out.accepted:
+            rec.count("grey_chaining_versions_rejected")  # tallied, not judged (statements silent on non-int numerics)
+    rec.sample({"grey_class_mapping": "float / bool versions accepted by the library's own checker; mismatch must be MetadataVerificationError"})
+
+
 def run_shard(spec, rec, lib):
+    if spec["kind"] == "grey_classes":
+        return run_grey_classes(spec, rec, lib)
     {"positions": run_positions, "mutations": run_mutations, "hostile_json": run_hostile_json, "classes": run_classes}[
         spec["kind"]](spec, rec, lib)
 
